@@ -34,9 +34,19 @@ def random_admg(rng, n, hostile=None, p_di=None, p_bi=None):
     if hostile == "names_odd" and n <= 9:
         # names a biologist would use: not identifiers, with blanks, dashes, digits first, mixed case
         nm = ["IL-6", "STAT3", "HLA DR", "TNF", "NF-kB", "9p21", "p53", "Variable", "a b"][:n]
-        if rng.random() < 0.4:
+        r_ = rng.random()
+        if r_ < 0.3:
             # names that differ by leading zeros or by the length of a trailing number only
             nm = ["L1", "L01", "X2", "X10", "L001", "X02", "L10", "X1", "L2"][:n]
+        elif r_ < 0.45:
+            # labels with ", " inside: two different pairs of them can print as the same text
+            nm = ["BMI", "baseline, smoker", "BMI, baseline", "smoker", "age, sex", "age", "sex", "a, b, c", "b, c"][:n]
+        elif r_ < 0.6:
+            # names that are equal under Unicode compatibility normalisation (and still different strings)
+            nm = ["C1", "C\u2081", "\u00b5", "\u03bc", "X", "\uff38", "K", "\u212a", "Y"][:n]
+        elif r_ < 0.7:
+            # names with outer blanks, and the library's own latent prefix with a sign
+            nm = ["C", "C ", " Z", "Z", "u_-1", "u_-2", " ", "Y", "X"][:n]
     order = nm[:]
     rng.shuffle(order)  # topological order
     p_di = rng.choice(DENSITIES) if p_di is None else p_di
